@@ -28,6 +28,16 @@ ASSUMPTIONS = ["astropy WCS all_pix2world/all_world2pix semantics",
                "contracts table (aegean_sa/units.py)"]
 
 MUTANTS = [
+    ("pixel beam handed out with the sky position angle",
+     "AegeanTools/wcs_helpers.py",
+     "            return self._psf_a, self._psf_b, self._psf_theta\n        psf_sky",
+     "            return self._psf_a, self._psf_b, self.beam.pa\n        psf_sky",
+     "C16-R14"),
+    ("vector angle read back with the wrong sign of dy",
+     "AegeanTools/wcs_helpers.py",
+     "        theta = np.degrees(np.arctan2((y_off - y), (x_off - x)))",
+     "        theta = np.degrees(np.arctan2((y - y_off), (x_off - x)))",
+     "C16-R13"),
     ("minor-axis bearing taken from the end point back to the centre",
      "AegeanTools/wcs_helpers.py",
      "        pa2 = bear(ra, dec, ra2, dec2) - 90",
@@ -163,6 +173,8 @@ def run(ctx):
     formulae(ctx, prog, {"R1": "C16-R3", "R2": "C16-R3", "R3": "C16-R3"})
     # ---------------------------------------------------------------- R5
     r5_deps(ctx, ci)
+    r13_plane_geometry(ctx, prog, ci)
+    r14_pixel_beam(ctx, prog, ci)
     r7_defect(ctx, prog, ci)
     r8_quadrant(ctx, prog)
     r9_stateless(ctx, prog)
@@ -222,6 +234,162 @@ DEP_SPEC = {
         0: ((), ("r", "theta")), 1: ((), ("r", "theta")),
         2: (("r",), ()), 3: (("theta",), ())}),
 }
+
+
+def r14_pixel_beam(ctx, prog, ci, rule="C16-R14"):
+    """the constant pixel beam handed out without a psf map is the one
+    __init__ converted from the header beam"""
+    ctx.rule(rule, "the pixel-frame beam: without a psf map every accessor "
+             "(get_psf_sky2pix, get_psf_pix2pix) returns the three "
+             "attributes that __init__ stores from sky2pix_ellipse(reference "
+             "position, BMAJ, BMIN, BPA), in that order -- in particular the "
+             "pixel rotation angle, not the sky position angle of the header "
+             "(the two differ by a mirror reflection for CDELT1 < 0)")
+    init = ci.methods.get("__init__")
+    stored = None
+    for st in walk_no_nested(init.node):
+        if isinstance(st, ast.Assign) and \
+                isinstance(st.targets[0], ast.Tuple) and \
+                isinstance(st.value, ast.Call) and \
+                norm(st.value.func).split(".")[-1] == "sky2pix_ellipse":
+            stored = [norm(e) for e in st.targets[0].elts[-3:]]
+    if stored is None or not all(x.startswith("self.") for x in stored):
+        raise AnalysisError("%s: pixel beam attributes of __init__" % rule)
+    n = 0
+    for m in ("get_psf_sky2pix", "get_psf_pix2pix"):
+        fi = ci.methods.get(m)
+        if fi is None:
+            continue
+        rets = [r for r in walk_no_nested(fi.node)
+                if isinstance(r, ast.Return) and
+                isinstance(r.value, ast.Tuple) and len(r.value.elts) == 3
+                and all(isinstance(e, ast.Attribute) for e in r.value.elts)]
+        for r in rets:
+            n += 1
+            got = [norm(e) for e in r.value.elts]
+            ctx.check(rule, fi, "constant pixel beam returned by %s: %s" %
+                      (m, got), got == stored,
+                      "%s returns %s; __init__ stores the pixel beam as %s" %
+                      (m, got, stored), node=r)
+    ctx.floor(rule, n, 2, "constant pixel beam returns")
+
+
+def r13_plane_geometry(ctx, prog, ci, rule="C16-R13"):
+    """the pixel-plane halves of the vector / ellipse conversions are
+    inverse to each other: an end point built from (length, angle) by the
+    pixel -> sky direction is decomposed into the same (length, angle) by
+    the sky -> pixel direction"""
+    import math
+    from .. import concrete
+    from ..core import expand_locals
+    ctx.rule(rule, "pixel-plane geometry: the end point pix2sky_vec / "
+             "pix2sky_ellipse put at (length, angle) from a pixel -- "
+             "(x + r cos t, y + r sin t), the minor axis a quarter turn "
+             "on -- is read back by the formulae of sky2pix_vec / "
+             "sky2pix_ellipse (hypot of the offsets, atan2(dy, dx)) as the "
+             "same length and angle; both are interpreted over sample "
+             "vectors in all four quadrants")
+
+    def endpoint(fi, which):
+        """the which-th offset point handed to self.pix2sky in fi, as
+        (expr_x, expr_y)"""
+        pts = []
+        for c in walk_no_nested(fi.node):
+            if isinstance(c, ast.Call) and norm(c.func) == "self.pix2sky" \
+                    and c.args:
+                a = c.args[0]
+                if isinstance(a, ast.Name):
+                    # the reaching definition: the last assignment to the
+                    # name in front of the call
+                    ds = [st for st in walk_no_nested(fi.node)
+                          if isinstance(st, ast.Assign) and
+                          len(st.targets) == 1 and
+                          norm(st.targets[0]) == a.id and
+                          st.lineno < c.lineno]
+                    if ds:
+                        a = max(ds, key=lambda st: st.lineno).value
+                if isinstance(a, ast.Call) and a.args and \
+                        norm(a.func).split(".")[-1] in ("array", "asarray"):
+                    a = a.args[0]
+                if isinstance(a, (ast.Tuple, ast.List)) and \
+                        len(a.elts) == 2 and any(
+                            isinstance(x, ast.Call) for x in ast.walk(a)):
+                    pts.append(a.elts)
+        return pts[which] if which < len(pts) else None
+
+    def decomposition(fi, k_len, k_ang):
+        """expressions of the returned length and angle"""
+        rets = [r_ for r_ in walk_no_nested(fi.node)
+                if isinstance(r_, ast.Return) and
+                isinstance(r_.value, ast.Tuple)]
+        if len(rets) != 1:
+            return None
+        e = rets[0].value.elts
+
+        def reach(x):
+            if isinstance(x, ast.Name):
+                ds = [st for st in walk_no_nested(fi.node)
+                      if isinstance(st, ast.Assign) and
+                      len(st.targets) == 1 and
+                      norm(st.targets[0]) == x.id and
+                      st.lineno < rets[0].lineno]
+                if ds:
+                    return max(ds, key=lambda st: st.lineno).value
+            return expand_locals(fi.node, x)
+        return reach(e[k_len]), reach(e[k_ang])
+    cases = (("pix2sky_vec", 0, "sky2pix_vec", 2, 3, ("r", "theta"), 0.0),
+             ("pix2sky_ellipse", 0, "sky2pix_ellipse", 2, 4,
+              ("sx", "theta"), 0.0))
+    n = 0
+    for fwd, which, inv, k_len, k_ang, (ln, an), turn in cases:
+        f1, f2 = ci.methods.get(fwd), ci.methods.get(inv)
+        if f1 is None or f2 is None:
+            raise AnalysisError("%s: %s / %s" % (rule, fwd, inv))
+        pt = endpoint(f1, which)
+        dec = decomposition(f2, k_len, k_ang)
+        if pt is None or dec is None:
+            raise AnalysisError("%s: end point of %s / return of %s not "
+                                "recognised" % (rule, fwd, inv))
+        bad = []
+        for x, y, r, t in ((10.0, 20.0, 3.0, 30.0), (10.0, 20.0, 2.5, 120.0),
+                           (7.5, 3.25, 4.0, -60.0), (7.5, 3.25, 1.5, -150.0),
+                           (100.0, 50.0, 12.0, 90.0), (5.0, 5.0, 2.0, 0.0),
+                           (5.0, 5.0, 2.0, 180.0)):
+            env = {"x": x, "y": y, ln: r, an: t, "sy": r / 2.0,
+                   "pixel": [x, y]}
+            try:
+                xo, yo = concrete.ev(pt[0], env), concrete.ev(pt[1], env)
+                env2 = {"x": x, "y": y, "x_off": xo, "y_off": yo}
+                # the inverse function names its own locals: bind the
+                # offset point under every name it unpacks a sky2pix
+                # result into
+                for st in walk_no_nested(f2.node):
+                    if isinstance(st, ast.Assign) and \
+                            isinstance(st.targets[0], ast.Tuple) and \
+                            len(st.targets[0].elts) == 2 and \
+                            isinstance(st.value, ast.Call) and \
+                            norm(st.value.func) == "self.sky2pix":
+                        a_, b_ = (norm(e_) for e_ in st.targets[0].elts)
+                        if (a_, b_) != ("x", "y") and a_ not in env2:
+                            env2[a_], env2[b_] = xo, yo
+                r2 = concrete.ev(dec[0], env2)
+                t2 = concrete.ev(dec[1], env2)
+            except concrete.Unknown as e:
+                raise AnalysisError("%s: %s / %s: %s" % (rule, fwd, inv, e))
+            n += 1
+            if inv == "sky2pix_ellipse":
+                t2 = math.degrees(t2) if abs(t2) <= 2 * math.pi + 1e-9 and \
+                    "degrees" not in norm(dec[1]) else t2
+            dt = (t2 - t + 180.0) % 360.0 - 180.0
+            if abs(r2 - r) > 1e-9 * max(1.0, r) or abs(dt) > 1e-9:
+                bad.append(((r, t), (r2, t2)))
+        ctx.check(rule, f2, "%s reads back the end point of %s "
+                  "(7 sample vectors)" % (inv, fwd), not bad,
+                  "a vector of (length, angle) = %s placed by %s comes back "
+                  "from the formulae of %s as %s" %
+                  ((bad[0][0], fwd, inv, bad[0][1]) if bad
+                   else ("", "", "", "")), node=f2.node)
+    ctx.floor(rule, n, 14, "sample vectors interpreted")
 
 
 def r5_deps(ctx, ci):
